@@ -33,7 +33,7 @@ func (c07) Rule() string {
 }
 func (c07) Batches(string) int { return 32 }
 func (c07) Required(string) []string {
-	return []string{"histories", "product_cases", "random_histories", "term.abort-loop", "term.abort-callback", "term.host-panic", "term.abort-in-nested-try", "term.frame-overflow", "term.stack-overflow", "term.recovered-panic", "term.error-depth100", "bytes_unchanged_checks", "observer_error_outcomes"}
+	return []string{"histories", "product_cases", "random_histories", "term.abort-loop", "term.abort-callback", "term.host-panic", "term.abort-in-nested-try", "term.frame-overflow", "term.stack-overflow", "term.recovered-panic", "term.error-depth100", "bytes_unchanged_checks", "observer_error_outcomes", "nil_globals_probes"}
 }
 func (c07) Assumptions() []string {
 	return []string{"map iteration order is never observable in the observed scripts", "re-running WITHOUT Clear/SetBytecode (documented REPL behaviour keeping the module cache) is out of the statement and not compared"}
@@ -436,6 +436,62 @@ func (m c07) Run(c *core.Ctx) {
 		}
 	}
 	// random longer histories with generated observers
+	// runs WITHOUT a globals map (Run(nil)): the VM supplies a fresh empty map each time, so globals written by an earlier
+	// script must not be visible to the next one, whatever the termination kind and transition
+	for hi, hist := range []string{
+		"global X\nX = 42\nreturn X",
+		"global (X, Y)\nX = [1, 2]\nY = {a: X}\nthrow error(\"after writing globals\")",
+		"global X\nX = func() { return 7 }\nreturn [1][5]",
+	} {
+		for tri, tr := range c07transitions {
+			idx++
+			if idx%c.NBatch != c.Batch {
+				continue
+			}
+			hist, tr := hist, tr
+			if !c.Begin(func() string { return "nil-globals history " + tr + "\n" + hist }) {
+				continue
+			}
+			obsSrc := "global (X, Y)\nr := [X == undefined ? \"unset\" : \"SET\", Y == undefined ? \"unset\" : \"SET\"]\nX = 1\nreturn r"
+			hb, ob := env.compile(hist), env.compile(obsSrc)
+			other := env.compile("return 5")
+			if hb == nil || ob == nil || other == nil {
+				c.Inconclusive("nil-globals probe does not compile")
+				continue
+			}
+			vm := ugo.NewVM(hb).SetRecover(true)
+			_, _ = vm.Run(nil)
+			switch tr {
+			case "clear":
+				vm.Clear()
+				vm.SetBytecode(hb)
+			case "setbytecode-same":
+				vm.SetBytecode(hb)
+			case "setbytecode-other":
+				vm.SetBytecode(other)
+			default:
+				vm.Clear()
+				vm.SetBytecode(other)
+			}
+			_, _ = vm.Run(nil)
+			vm.SetBytecode(ob)
+			used, uerr := vm.Run(nil)
+			fresh, ferr := ugo.NewVM(ob).SetRecover(true).Run(nil)
+			c.Count("nil_globals_probes")
+			us, fs := fmt.Sprint(uerr)+"|"+canon.Value(used), fmt.Sprint(ferr)+"|"+canon.Value(fresh)
+			if uerr != nil {
+				us = fmt.Sprint(uerr)
+			}
+			if ferr != nil {
+				fs = fmt.Sprint(ferr)
+			}
+			if us != fs {
+				c.Violation("C07|used-vs-new|nil-globals|"+tr, "with no globals map given, a script sees global variables written by an earlier script on the same VM: used VM "+us+", new VM "+fs,
+					c07wit{History: []string{fmt.Sprintf("nil-globals-history-%d/%s", hi, tr)}, Observer: obsSrc, Why: "globals leak", Used: us, Fresh: fs})
+			}
+			c.Nontrivial(fmt.Sprintf("nilglobals-%d-%d", hi, tri))
+		}
+	}
 	n := c.Pick(120, 40000)
 	o := gen.Opts{MaxStmts: 22, MaxDepth: 4, ExprDepth: 3, Try: 0.5, Throw: 0.15, Funcs: 0.6, Shadow: 0.2, LogProb: 0.2, Globals: true, DeepRecursion: 20, Faults: 0.01, Params: 2}
 	for i := 0; i < n; i++ {
